@@ -1,0 +1,92 @@
+//go:build verif
+
+// Contracts for package nbhttp, read by /verif/govc (comment-only; compiled by nobody).
+package nbhttp
+
+//@ uses mempool.unborn
+
+// bytes handed to the connection by the code under contract (advanced only by the trusted Write contracts)
+//@ ghost gOut : Int
+
+//@ package net
+//@ iface net.Conn.Write
+//@   params b
+//@   ensures err == nil ==> n == len(b)
+//@   ensures gOut == old(gOut) + ite(err == nil, len(b), 0)
+//@   assigns gOut, allocates
+//@ iface io.Writer.Write
+//@   ensures err == nil ==> n == len(p)
+//@   ensures gOut == old(gOut) + ite(err == nil, len(p), 0)
+//@   assigns gOut, allocates
+//@ package nbhttp
+
+// ---- Response: the two pooled buffers it may hold are live and distinct (C11)
+//@ pred ResOwn(res *Response) := (res.buffer != nil ==> liveP[res.buffer]) && (res.bodyBuffer != nil ==> liveP[res.bodyBuffer]) && (res.buffer != nil && res.bodyBuffer != nil ==> res.buffer != res.bodyBuffer)
+//@ pred ResWired(res *Response) := res.Parser != nil && res.request != nil
+//@ pred buflen(p *[]byte) := ite(p == nil, 0, len(*p))
+
+//@ ghost local Response.gLen0 : Int
+//@ ghost local Response.gLenStr : Int
+
+//@ func (*Response).WriteHeader
+//@   trusted
+//@   note status bookkeeping only: does not touch the buffers
+//@   assigns res.status, res.statusCode, allocates
+//@ func (*Response).checkChunked
+//@   trusted
+//@   note framing decision: does not touch the buffers
+//@   ensures old(res.chunkChecked) ==> res.chunked == old(res.chunked)
+//@   assigns res.chunked, res.chunkChecked, allocates
+//@ func (*Response).contentLength
+//@   trusted
+//@   note parses the Content-Length header: does not touch the buffers
+//@   assigns res.contentLen, allocates
+//@ func (*Response).eoncodeHead
+//@   trusted
+//@   note encodes the head into a new pooled buffer unless already done
+//@   requires ResOwn(res)
+//@   ensures !old(res.headEncoded) ==> res.buffer != nil && fresh(res.buffer) && liveP[res.buffer]
+//@   ensures old(res.headEncoded) ==> res.buffer == old(res.buffer)
+//@   ensures res.headEncoded && res.bodyBuffer == old(res.bodyBuffer) && (forall q int :: q <= old(top) ==> liveP[q] == old(liveP[q]) && box(q, "[]byte") == old(box(q, "[]byte")))
+//@   assigns res.headEncoded, res.buffer, res.trailer, res.trailerSize, liveP, allboxes("[]byte"), allelems("byte"), allocates
+//@ func (*Response).formatInt
+//@   trusted
+//@   note value correctness of the hexadecimal rendering is not under contract here; only its length class
+//@   ensures 0 <= n && n <= 2147483647 ==> 1 <= len(result) && len(result) <= 10
+//@   ensures (n < 0 || n > 2147483647) ==> len(result) == 0
+//@   assigns allocates
+
+//@ package mempool
+//@ func Malloc
+//@   inline
+//@ func Free
+//@   inline
+//@ func Append
+//@   inline
+//@ func AppendString
+//@   inline
+//@ func Realloc
+//@   inline
+//@ package nbhttp
+
+//@ func (*Response).writeChunk
+//@   props C09 C11
+//@   safety index slice nil div assert panic make
+//@   requires ResWired(res) && ResOwn(res) && conn != nil && l == len(data) && l > 0 && res.bodyBuffer == nil
+//@   ensures n: result1 == nil ==> result0 == l                                                                       // prop C09
+//@   ensures own: ResOwn(res)                                                                                          // prop C11
+//@   ensures conserve: result1 == nil ==> gOut - old(gOut) + buflen(res.buffer) == res.gLen0 + res.gLenStr + l + 4   // prop C09
+//@   assigns res.headEncoded, res.buffer, res.trailer, res.trailerSize, res.gLen0, res.gLenStr, gOut, liveP, allboxes("[]byte"), allelems("byte"), allocates
+//@   at call:eoncodeHead#1 ghost { res.gLen0 = buflen(res.buffer) }
+//@   at call:formatInt#1 ghost { res.gLenStr = len(result) }
+
+// ---- Write: every successful Write reports exactly the number of bytes it was given (C09); ownership (C11)
+//@ func (*Response).Write
+//@   props C09 C11
+//@   safety index slice nil div assert panic make
+//@   note a Response without a connection (Parser.Conn == nil: only built by the parser unit tests) discards the data and returns (0, nil); the property speaks about responses on a wire
+//@   requires ResWired(res) && ResOwn(res) && (res.chunked ==> res.bodyBuffer == nil) && (!res.chunkChecked ==> res.bodyBuffer == nil)
+//@   requires wired: res.Parser.Conn != nil
+//@   ensures n: result1 == nil ==> result0 == len(data)                                                               // prop C09
+//@   ensures own: ResOwn(res)                                                                                          // prop C11
+//@   assigns everything
